@@ -621,6 +621,9 @@ def def_reexam(ctx):
         grow = [bb for bb, c in it.calls.items() if is_call(c.term, ('apply', 'merge'), self_adt='VClock') and c.args and c.args[0].is_mut_ref
                 and param_path(c.args[0].val) and param_path(c.args[0].val)[0] == 1 and param_path(c.args[0].val)[1] == (r['clock'],)
                 and bb in rc.reachable]
+        # (the counter stored straight into the replica clock's map under the gate: what ABSORB accepts as the absorption)
+        grow += [bb for bb, c in it.calls.items() if call_name(c.term) == 'insert' and len(c.args) == 3 and c.args[0].is_mut_ref
+                 and param_path(c.args[0].val) == (1, (r['clock'], 'dots')) and bb in rc.reachable]
         name = inst + '/apply'
         if not grow:
             ctx.shape(name, body, 'replica clock growth not found in the gated arm (see ABSORB)')
